@@ -55,9 +55,15 @@ func checkC05(c *Ctx) {
 			o := c04Opts
 			o.PDup = 0.1
 			o.Actions = i%2 == 0
+			if i%5 == 4 {
+				// more than ten productions: production numbers of one and of two digits compete
+				o.MaxNT, o.MaxAlts, o.PDup = 5, 4, 0.2
+			}
 			gs = append(gs, genSynGrammar(rng, o))
 		}
-		b := c.buildSynBatch(fmt.Sprintf("c05_%d", done), gs, [][]string{{"-a"}})
+		// every third grammar with compressed tables: the resolved entries travel through their
+		// encoding too
+		b := c.buildSynBatch(fmt.Sprintf("c05_%d", done), gs, [][]string{{"-a"}, {"-a", "-zip"}, {"-a"}})
 		var cases []*SynCase
 		for _, cs := range b.built() {
 			if cs.Reported <= 0 {
